@@ -196,6 +196,7 @@ class Gen:
                 ('ifna', p['w_ifna']), ('concat', p.get('w_concat', 0)),
                 ('istype', p.get('w_istype', 0)),
                 ('textfn', p.get('w_textfn', 0)),
+                ('engfn', p.get('w_engfn', 0)),
             ])
         d = depth - 1
         if kind == 'ref':
@@ -229,6 +230,9 @@ class Gen:
         if kind == 'concat':     # type-sensitive: display form of the operand
             return ['op', '&', ['op', '&', self.scalar_ref(i, host),
                                 ['s', '-']], self.scalar(i, host, d)]
+        if kind == 'engfn':      # argument parsers that tell TRUE from 1.0
+            return ['f', rng.pick(['DEC2BIN', 'DEC2HEX', 'DEC2OCT']),
+                    self.scalar_ref(i, host)]
         if kind == 'textfn':     # number formats: parsed once, applied often
             return ['f', 'TEXT', self.scalar(i, host, d),
                     ['s', rng.pick(['0.00', '0', '0.0', '#,##0.00', '000',
